@@ -947,7 +947,7 @@ pub fn gen_scenario(run_seed: u64, variant: &str, tier: Tier) -> E1Scenario {
         _ => rw.chance(1, 2),
     };
     if l1 {
-        let n_mod = rs.range(1, 4);
+        let n_mod = rs.range(1, if tier == Tier::Thorough { 6 } else { 4 });
         let modules: Vec<usize> = (0..n_mod).map(|_| rs.below(sc.files.len())).collect();
         let mut plan = L1Plan { modules, sched_seed: rs.next_u64(), pct: rs.chance(1, 3), config: rs.chance(1, 2).then(|| rs.below(sc.configs.len())), ..Default::default() };
         // fault mix (swarm): each kind enabled for a subset of runs
